@@ -15,8 +15,9 @@ META = dict(
     level_text="TLC enumerates the transforms (create, delete, rename, swap, move into an existing / new directory, "
                "file<->directory kind changes, up to 2 (quick) / 3 (thorough) changed entries) and proves on the model that "
                "the journal rollback restores the tree exactly, that no rename clobbers, and that - with the metadata "
-               "update placed before the deletions - every terminal state is all-or-nothing; with the order of the code "
-               "it produces the counter-example. Every (transform, fault index) is then run on the real code and the "
+               "update placed before the deletions - every terminal state is all-or-nothing; with the deletions first "
+               "it produces the counter-example. Which of the two orders each flavour of the tree implements is probed first "
+               "(InventoryFirst), and the counter-example must reproduce exactly on the flavours with the old order. Every (transform, fault index) is then run on the real code and the "
                "observed terminal state is judged by the TLA+ laws; the number and phase of the real file-system calls "
                "must match the model (drift).",
     level_note="Single fault per apply(); a fault is OSError(EIO) raised instead of the call (no partial effect of the "
@@ -140,19 +141,41 @@ def replay_chunk(sub, chunk):
                         "flavour": fl, "fault_indices": list(range(total + 1))})
 
 
-CASES, TREE, BASES = [], {}, {}
+CASES, TREE, BASES, ORDER = [], {}, {}, {}
 
 
 def mkey(m):
     return tuple((f, tuple(sorted(m[f].items())) if isinstance(m[f], dict) else tuple(sorted(m[f]))) for f in sorted(m))
 
 
+def detect_order(ctx):
+    """Which order does THIS tree implement, per flavour?  Probe: delete file a, fail the first delete_any of a pending
+    deletion; the versioning a re-opened tree reports says whether the metadata update came before (True, the order of
+    Transform.tla with InventoryFirst = TRUE) or after (False) the deletions."""
+    tids = sorted(TREE) + ["N1", "N2"]
+    none = {t: "none" for t in tids}
+    m = {"name": dict(none), "parent": dict(none), "contents": dict(none), "exec": dict(none),
+         "removed": ["A"], "remid": ["A"], "newid": []}
+    dest = os.path.join(ctx.workdir, "probe")
+    out = {}
+    for fl in tc.FLAVOURS:
+        obs, info = run_once({"m": m}, fl, 0, dest)
+        ks = [i + 1 for i, c in enumerate(info["calls"]) if c[0] == "pending-delete"]
+        if info["raised"] or not ks:
+            ctx.machinery("order probe: deleting a file makes no delete_any call during apply() on the %s tree (%s)" % (fl, info))
+        obs, info = run_once({"m": m}, fl, ks[0], dest)
+        out[fl] = ["a"] not in [e["path"] for e in obs["ver"]]
+    return out
+
+
 def signature(row, verdict):
     o, fl = row["obs"], row["fl"]
     sh = verdict["shape"]
-    if o["phase"] == "deletion" and sh["disk"] == "post" and "pre" in sh["ver"] and "post" not in sh["ver"]:
+    stale = fl == "git" and sh["disk"] == "post" and "stale-children" in sh["ver"]
+    if o["phase"] == "deletion" and sh["disk"] == "post" and "pre" in sh["ver"] and "post" not in sh["ver"] \
+            and not (stale and ORDER.get(fl)):          # (on a metadata-first git tree old keys = the stale-children deviation)
         return SIG_KNOWN % fl
-    if fl == "git" and o["phase"] == "cleanup" and sh["disk"] == "post" and "stale-children" in sh["ver"]:
+    if stale and o["phase"] in ("cleanup", "deletion"):
         return SIG_GIT_STALE
     return "%s:%s:disk=%s,ver=%s:%s" % ("+".join(sorted(verdict["failed"])), o["phase"], sh["disk"], "|".join(sh["ver"]) or "other", fl)
 
@@ -162,30 +185,35 @@ def run(ctx):
     env.init()
     mc = 2 if ctx.quick else 3
     small = 1
-    # E1 + export: the order of the code.  Rollback exactness, no clobbering renames, phase bookkeeping hold ...
-    data, res = tlc.json_cases(ctx, "TransformGen", cfg_text=gen_cfg(mc, False, SAFE), label="MC as coded + export", timeout=840)
+    # E1 + export.  Rollback exactness, no clobbering renames, phase bookkeeping hold for either order ...
+    data, res = tlc.json_cases(ctx, "TransformGen", cfg_text=gen_cfg(mc, False, SAFE), label="MC deletions-first + export", timeout=840)
     TREE = {t: {"path": list(e["path"]), "kind": e["kind"]} for t, e in data["tree"].items()}
     CASES = sorted(data["cases"], key=lambda c: repr(sorted(c["m"].items())))
     if not CASES:
         ctx.machinery("TransformGen exported no transforms")
-    # ... and the deletion clause does not: TLC's counter-example (reproduced on the real code below, like every other case)
+    for fl in tc.FLAVOURS:
+        BASES[fl] = tc.make_base(ctx.workdir, fl, TREE)
+    order = detect_order(ctx)
+    ORDER.update(order)
+    ctx.cov["implementation_order"] = {fl: "metadata-update-then-deletions" if v else "deletions-then-metadata-update"
+                                       for fl, v in order.items()}
+    # ... and the deletion clause does not for the order deletions-then-metadata (InventoryFirst = FALSE): TLC's
+    # counter-example must reproduce, at the same fault index, on every flavour that implements that order
     cex_case = st = None
     cex = tlc.run(ctx, "TransformGen", cfg_text=gen_cfg(small, False, ("DeletionFailureNewMeta",)), allow_violation=True)
     if cex["violated"] != "DeletionFailureNewMeta":
         ctx.drift("the model of the code's order no longer violates DeletionFailureNewMeta")
     else:
-        ctx.add_tlc(cex, "counter-example as coded")
+        ctx.add_tlc(cex, "counter-example deletions-first")
         st = to_py(cex["trace"][0][1])
         cex_case = next((i for i, c in enumerate(CASES) if mkey(c["m"]) == mkey(st["m"])), None)
         ctx.cov["counterexample_as_coded"] = {"actions": [a for a, _ in cex["trace"]], "k": st["k"], "case": cex_case}
         if cex_case is None:
             ctx.machinery("TLC's counter-example transform is not among the exported cases")
-    # the repaired order (metadata before deletions) satisfies every clause
-    tlc.check(ctx, "TransformGen", cfg_text=gen_cfg(small if ctx.quick else mc, True, ALL), label="MC repaired order", timeout=840)
+    # the order metadata-update-then-deletions (InventoryFirst = TRUE) satisfies every clause
+    tlc.check(ctx, "TransformGen", cfg_text=gen_cfg(small if ctx.quick else mc, True, ALL), label="MC metadata-first", timeout=840)
     for w, focus in (("WitnessRollbackNested", ("A", "B")), ("WitnessDeletionFailure", ("A",)), ("WitnessRider", ("A", "N1"))):
         tlc.check(ctx, "TransformGen", cfg_text=gen_cfg(2, False, (w,), focus), expect_violation=w, label="witness " + w)
-    for fl in tc.FLAVOURS:
-        BASES[fl] = tc.make_base(ctx.workdir, fl, TREE)
     idx = list(range(len(CASES)))
     if ctx.quick and len(idx) > 120:
         idx = sorted(set(ctx.rng.sample(idx, 120)) | ({cex_case} if cex_case is not None else set()))
@@ -218,11 +246,16 @@ def run(ctx):
             ctx.drift("model/implementation mismatch (%s) %s k=%d phase=%s nops=%d" % (
                 d, row["fl"], row["k"], row["obs"]["phase"], row["obs"]["nops"]), {"m": row["m"], "info": full["info"]})
     if cex_case is not None:        # the counter-example, step for step the same fault index, must reproduce on the real code
-        want = {SIG_KNOWN % fl for fl in tc.FLAVOURS}
+        want = {SIG_KNOWN % fl for fl in tc.FLAVOURS if not order[fl]}
         got = {sig for sig, _, rep in ctx.violations if rep["k"] == st["k"] and mkey(rep["transform"]) == mkey(CASES[cex_case]["m"])}
         if not want <= got:
-            ctx.drift("TLC's counter-example for DeletionFailureNewMeta (order of the code) did not reproduce on the real "
-                      "code: %s" % sorted(want - got), ctx.cov["counterexample_as_coded"])
+            ctx.drift("TLC's counter-example for DeletionFailureNewMeta (deletions before the metadata update) did not "
+                      "reproduce on a flavour that implements that order: %s" % sorted(want - got),
+                      ctx.cov["counterexample_as_coded"])
+        both = {SIG_KNOWN % fl for fl in tc.FLAVOURS if order[fl]} & got
+        if both:
+            ctx.drift("a flavour probed as metadata-update-first shows the counter-example of the other order: %s" % sorted(both),
+                      ctx.cov["counterexample_as_coded"])
     ctx.rule("transforms = every conflict-free combination of <= %d changed entries (delete / move / replace by file / "
              "replace by directory / new file / new directory) over the tree {a, b, d/, d/a} enumerated by TLC "
              "(TransformGen.tla); each runs with no fault and with a fault at every file-system call of apply(), on a "
